@@ -51,7 +51,8 @@ def gen(rng: random.Random, tier: str, idx: int) -> dict:
     else:
         exc, burst = rng.choice([("InternalError", 7), ("AccessDenied", 1), ("EndpointConnectionError", 7)])
     return {"backend": backend, "setup": setup, "mode": mode, "exc": exc, "burst": burst,
-            "dead_writer": rng.random() < 0.8, "dead_at": rng.choice(["META", "HINT"]),
+            "dead_writer": rng.random() < 0.8, "dead_at": rng.choice(["META", "HINT", "HINT"]),
+            "dead_op": rng.choice(["rewrite", "drop_oldest", "expire_old"]),
             "open_tx": rng.random() < 0.7, "grace_ms": rng.choice([0, 0, 3600000]), "staged_young": rng.random() < 0.7,
             "points": None, "sample": 8 if tier == "quick" else None,
             "k_seed": rng.randrange(1 << 30)}
@@ -83,7 +84,13 @@ def _prepare(plan, scratch, seed):
         op = ("replace" if backend == "local" else "put")
         ph1 = Phase(plan, scratch, backend, seed ^ 1, core.Policy(), start=now + 1.0, store=store,
                     faults=[{"kind": "crash", "proc": "pdead", "op": op, "cls": cls, "nth": 1}])
-        ph1.actor("pdead", "dead", [{"kind": "delete_file", "tag": "dw", "k": 0, "with_append": True}])
+        # what the dying writer was committing decides what its left-over, never-committed v(N+1) metadata file says:
+        # a rewrite keeps every snapshot; a snapshot deletion / expiry DROPS retained snapshots - a collector that
+        # trusted that file would see their files as unreachable
+        dop = {"rewrite": {"kind": "delete_file", "tag": "dw", "k": 0, "with_append": True},
+               "drop_oldest": {"kind": "delete_snapshot", "k": 0},
+               "expire_old": {"kind": "expire", "tag": "dw", "k": 9, "delta": 0}}[plan.get("dead_op", "rewrite")]
+        ph1.actor("pdead", "dead", [dop])
         ph1.run()
         now = ph1.sim.now
         if len(ph1.world.flips):
